@@ -6,6 +6,7 @@ A *document descriptor* is plain JSON:
      "blocks": [{"name": "s1", "hpad": False,    # "[s1]"  (hpad: "[ s1 ]")
                  "entries": [["o", "key", "v", " = "],           # option line  key = v
                              ["o", "key", ["p", "q r"], " = "],  # value with an indented continuation line
+                             ["o", "flag", None, ""],            # bare name, no separator (allow_no_value)
                              ["f", "# c"]]}]}                    # filler: comment or blank line
 
 The model is the *statement*, nothing else:
@@ -13,7 +14,10 @@ The model is the *statement*, nothing else:
   * option names are case-insensitive (reported lower-cased);
   * a later duplicate overrides an earlier one;
   * a section's own option beats the default; options of DEFAULT are visible in every section;
-  * comment lines ("#" / ";" in column 0) and blank lines contribute nothing;
+  * comment lines ("#" / ";" as first non-blank character, indented or not - the grammar's own Comment
+    rule and configparser both allow leading white space) and blank lines contribute nothing;
+  * a bare option name (no separator) is data with value None when the reader enables allow_no_value
+    and contributes nothing otherwise (class docstring of IniConfigFile);
   * a continuation line (indented deeper than its key) belongs to the value; how the pieces are
     joined is not stated, so values are compared after normalising runs of whitespace.
 """
@@ -32,6 +36,9 @@ def render(doc):
                 lines.append(e[1])
                 continue
             _, name, value, sep = e
+            if value is None:
+                lines.append(name)
+                continue
             parts = value if isinstance(value, list) else [value]
             lines.append((name + sep + parts[0]).rstrip(" ") if parts[0] == "" else name + sep + parts[0])
             for p in parts[1:]:
@@ -41,12 +48,16 @@ def render(doc):
 
 def norm(v):
     """Whitespace-normalised value (the joining of continuation pieces is not specified)."""
-    return " ".join(v.split())
+    return None if v is None else " ".join(v.split())
 
 
 def value_of(entry):
     v = entry[2]
     return " ".join(v) if isinstance(v, list) else v
+
+
+def is_data(entry, allow_no_value):
+    return entry[0] == "o" and (entry[2] is not None or allow_no_value)
 
 
 def has_continuation(doc):
@@ -56,22 +67,26 @@ def has_continuation(doc):
 class View(object):
     """What the statement says a reader of the document must see."""
 
-    def __init__(self, doc):
+    def __init__(self, doc, allow_no_value=False):
         own = collections.OrderedDict()
         for b in doc["blocks"]:
             d = own.setdefault(b["name"].strip(), collections.OrderedDict())
             for e in b["entries"]:
-                if e[0] == "o":
+                if is_data(e, allow_no_value):
                     k = e[1].strip().lower()
                     d.pop(k, None)
-                    d[k] = value_of(e)          # later duplicate wins
-        self.defaults = dict(own.get(DEFAULT, {}))
+                    d[k] = (value_of(e), isinstance(e[2], list))          # later duplicate wins
+        dflt = own.get(DEFAULT, {})
+        self.defaults = dict((k, v[0]) for k, v in dflt.items())
+        self.loose_defaults = set(k for k, v in dflt.items() if v[1])
         self.section_names = [s for s in own if s != DEFAULT]
         self.items = collections.OrderedDict()
+        self.loose = {}                   # section -> option names whose value has a continuation line
         for s in self.section_names:
-            m = dict(self.defaults)
+            m = dict(dflt)
             m.update(own[s])                      # own beats default
-            self.items[s] = m
+            self.items[s] = dict((k, v[0]) for k, v in m.items())
+            self.loose[s] = set(k for k, v in m.items() if v[1])
 
     def as_plain(self):
         return {"sections": list(self.section_names),
@@ -79,7 +94,10 @@ class View(object):
                 "defaults": {k: norm(v) for k, v in self.defaults.items()}}
 
 
-def second_model(doc):
+_MISSING = object()
+
+
+def second_model(doc, allow_no_value=False):
     """Independent second formulation (per-query, scanning the document backwards) used to keep
     the View honest: value(section, option) = the last own occurrence, else the last occurrence in
     DEFAULT, else absent."""
@@ -88,9 +106,9 @@ def second_model(doc):
             if b["name"].strip() != secname:
                 continue
             for e in reversed(b["entries"]):
-                if e[0] == "o" and e[1].strip().lower() == opt:
+                if is_data(e, allow_no_value) and e[1].strip().lower() == opt:
                     return norm(value_of(e))
-        return None
+        return _MISSING
     names = []
     for b in doc["blocks"]:
         n = b["name"].strip()
@@ -102,23 +120,24 @@ def second_model(doc):
         items[s] = {}
         for o in opts:
             v = last(s, o)
-            if v is None:
+            if v is _MISSING:
                 v = last(DEFAULT, o)
-            if v is not None:
+            if v is not _MISSING:
                 items[s][o] = v
     dflt = {}
     for o in opts:
         v = last(DEFAULT, o)
-        if v is not None:
+        if v is not _MISSING:
             dflt[o] = v
     return {"sections": names, "items": items, "defaults": dflt}
 
 
-def stdlib_view(lines):
+def stdlib_view(lines, allow_no_value=False):
     """configparser's reading of the same text, or None when configparser rejects it.
     Non-strict (duplicates allowed, later wins), no interpolation, '#'/';' full-line comments."""
     cp = configparser.RawConfigParser(strict=False, delimiters=("=", ":"), comment_prefixes=("#", ";"),
-                                      inline_comment_prefixes=None, default_section=DEFAULT)
+                                      inline_comment_prefixes=None, default_section=DEFAULT,
+                                      allow_no_value=allow_no_value)
     try:
         cp.read_string("\n".join(lines) + "\n")
     except configparser.Error:
@@ -152,7 +171,36 @@ def default_values(doc, opt_lower):
             for e in b["entries"] if e[0] == "o" and e[1].strip().lower() == opt_lower]
 
 
-def option_features(doc, secname, opt_lower, observed):
+def is_indented_comment(text):
+    return text[:1] in (" ", "\t") and text.strip()[:1] in ("#", ";")
+
+
+def indented_comment_follows(doc, secname, opt_lower):
+    """Structural fact: some value line of this option (an own occurrence in the section or an
+    occurrence in DEFAULT) is followed - skipping blank lines - by an indented comment line."""
+    for b in doc["blocks"]:
+        if b["name"].strip() not in (secname, DEFAULT):
+            continue
+        ents = b["entries"]
+        for i, e in enumerate(ents):
+            if e[0] == "o" and e[2] is not None and e[1].strip().lower() == opt_lower:
+                j = i + 1
+                while j < len(ents) and ents[j][0] == "f" and ents[j][1].strip() == "":
+                    j += 1
+                if j < len(ents) and ents[j][0] == "f" and is_indented_comment(ents[j][1]):
+                    return True
+    return False
+
+
+def comment_features(doc, secname, opt_lower, expected, observed):
+    """True only when the structure is present and the observed value is the expected one with
+    something appended (the comment line was glued to the value)."""
+    glued = (isinstance(observed, str) and isinstance(expected, str) and observed != expected
+             and (observed.startswith(expected) or norm(observed).startswith(norm(expected))))
+    return {"indented_comment_line_after_option_value": bool(glued and indented_comment_follows(doc, secname, opt_lower))}
+
+
+def option_features(doc, secname, opt_lower, observed, expected=None):
     """Narrow structural facts about one (section, option) whose observed value is wrong.
     Each is True only when the structure is present *and* the observed value is one that DEFAULT
     holds for this option (i.e. the discrepancy is the one the structure explains)."""
@@ -161,7 +209,8 @@ def option_features(doc, secname, opt_lower, observed):
                  for b in blocks_of_sec]
     own = [sp for ob in per_block for sp in ob]
     dsp = own_spellings(doc, DEFAULT, opt_lower)
-    from_default = isinstance(observed, str) and norm(observed) in default_values(doc, opt_lower)
+    from_default = (isinstance(observed, str) or observed is None) and norm(observed) in default_values(doc, opt_lower) \
+        and observed != "<absent>"
     feats = {}
     # some block of the section owns the option while DEFAULT spells it in a way that block does not use
     feats["default_option_differs_in_case_from_own"] = bool(
@@ -173,4 +222,5 @@ def option_features(doc, secname, opt_lower, observed):
     has = [bool(ob) for ob in per_block]
     rep = bool(dsp) and any(h and not all(has[i + 1:]) for i, h in enumerate(has[:-1]))
     feats["section_header_repeated_with_DEFAULT"] = bool(from_default and rep)
+    feats.update(comment_features(doc, secname, opt_lower, expected, observed))
     return feats
